@@ -776,6 +776,15 @@ template <class T> struct Maker<PhQ::ConstitutiveModel::CompressibleNewtonianFlu
         return ("\n".join(decls) + "\nstatic const vrt::ClitEntry clit_table_%s[] = {\n%s\n};\nstatic const vrt::ClitRegistrar clit_reg_%s{clit_table_%s, %d};\n"
                 % (short, "\n".join(entries), short, short, len(entries)))
 
+    def all_instance_names(self):
+        """names of every op instance the generator would produce on this tree (used to select subsets by name)"""
+        saved = (self.instances, self.only)
+        self.instances, self.only = [], None
+        self.translation_units(1)
+        names = list(self.instances)
+        self.instances, self.only = saved
+        return names
+
     def single_op_tu(self, name):
         """a TU containing only the named class op (used by calibration to test one op in isolation)"""
         m = re.match(r"^([\w:]+)<([fdl])>\|", name)
